@@ -9,9 +9,9 @@ BUILT = {
          "Every input of the stated spaces (all token sequences over the class alphabets to the stated depth; every language-id skeleton, every single edit of it, every separator mask) is executed on the real LanguageIdentifier parser and compared with an independent UTS #35 recogniser: accept/reject, every field, to_string and the error kind. Exhaustive within the bound, nothing sampled.",
          "Trusted: the reference recogniser (DESIGN §3.1) and the argument that the class alphabet covers every distinction the grammar can make (§1.3); inputs longer than the depth bound that are more than k edits from every skeleton are not explored.",
          "DESIGN.md §4 C02"),
- "C03": ("E1 token tree + E2 skeleton/edit neighbourhoods",
-         "bounded-exhaustive enumeration of token sequences and k-edit neighbourhoods, run on the real parser, compared with a three-zone reference recogniser",
-         "Every input of the stated spaces is classified by the three-zone oracle (must-accept with value / either / must-reject / out of scope) and executed on Locale::from_bytes; values are observed through the public getters and to_string. Exhaustive within the bound; the automaton-coverage guard makes a vacuous run an engine failure.",
+ "C03": ("E1 token tree + E2 skeleton/edit neighbourhoods + E6 exhaustive schedule exploration (shuttle DFS) of concurrent callers",
+         "bounded-exhaustive enumeration of token sequences and k-edit neighbourhoods, run on the real parser, compared with a three-zone reference recogniser; plus stateless model checking of thread interleavings: shuttle's DFS scheduler enumerates every schedule of 2- and 3-thread bodies over a copy of the library whose std::sync/thread/thread_local tokens are rewritten to shuttle's",
+         "Every input of the stated spaces is classified by the three-zone oracle (must-accept with value / either / must-reject / out of scope) and executed on Locale::from_bytes; values are observed through the public getters and to_string. Exhaustive within the bound; the automaton-coverage guard makes a vacuous run an engine failure. Concurrent callers: for all ordered pairs (and triples of the first five) of 8-16 operations of the family, every schedule of {warm-up; T1: a || T2: b [|| T3: c]; join; a; b} is enumerated by shuttle's DFS scheduler on a rewritten copy of the two -impl crates (every atomic / lock / thread-local access is a scheduling point); each result must equal the sequential one, which in turn must equal the real library's.",
          "Trusted: the reference recogniser and its zones (DESIGN §3.1, §6.2, §6.3).",
          "DESIGN.md §4 C03"),
  "C13": ("E1 token tree + E2 skeleton/edit neighbourhoods",
@@ -19,19 +19,19 @@ BUILT = {
          "Both parsers run on every input of the stated spaces; the superset clause, the prefix clause and the conversion laws are evaluated on every accepted value. Differential, so no oracle is trusted for the first clause.",
          "The prefix clause uses the reference recogniser only to decide which inputs are well-formed locale strings.",
          "DESIGN.md §4 C13"),
- "C06": ("E4 complete product enumeration (CLDR universe)",
-         "complete enumeration of all CLDR entries and of the whole L x S x R subtag universe, run on the real lookup, compared with a dictionary reference",
-         "All 8218 CLDR entries and every (language, script, region) triple of the universe of subtags occurring in likelySubtags.json (plus absent and unknown representatives, about 3.1e8 triples) go through likelysubtags::maximize and are compared with a dictionary reference built from the JSON text; the in-place API is compared on a sub-universe. The space is finite and enumerated completely in both tiers.",
+ "C06": ("E4 complete product enumeration (CLDR universe) + E6 exhaustive schedule exploration (shuttle DFS) of concurrent callers",
+         "complete enumeration of all CLDR entries and of the whole L x S x R subtag universe, run on the real lookup, compared with a dictionary reference; plus stateless model checking of thread interleavings: shuttle's DFS scheduler enumerates every schedule of 2- and 3-thread bodies over a copy of the library whose std::sync/thread/thread_local tokens are rewritten to shuttle's",
+         "All 8218 CLDR entries and every (language, script, region) triple of the universe of subtags occurring in likelySubtags.json (plus absent and unknown representatives, about 3.1e8 triples) go through likelysubtags::maximize and are compared with a dictionary reference built from the JSON text; the in-place API is compared on a sub-universe. The space is finite and enumerated completely in both tiers. Concurrent callers: for all ordered pairs (and triples of the first five) of 8-16 operations of the family, every schedule of {warm-up; T1: a || T2: b [|| T3: c]; join; a; b} is enumerated by shuttle's DFS scheduler on a rewritten copy of the two -impl crates (every atomic / lock / thread-local access is a scheduling point); each result must equal the sequential one, which in turn must equal the real library's.",
          "Trusted: data/likelySubtags.json as the CLDR source; unknown subtags of one kind behave alike (binary-search miss).",
          "DESIGN.md §4 C06"),
- "C07": ("E4 complete product enumeration (CLDR universe)",
-         "complete enumeration of the L x S x R universe and of a sub-universe x variant lists x extension sets, algebraic laws checked on the real maximize",
-         "Every triple of the universe is maximised and the laws (given subtags kept, all three present, bool result, idempotence, false => unchanged) are evaluated; variants and extensions are checked bit-identical on a sub-universe x 3 variant lists x 4 extension sets through LanguageIdentifier::maximize and Locale.id.maximize.",
+ "C07": ("E4 complete product enumeration (CLDR universe) + E6 exhaustive schedule exploration (shuttle DFS) of concurrent callers",
+         "complete enumeration of the L x S x R universe and of a sub-universe x variant lists x extension sets, algebraic laws checked on the real maximize; plus stateless model checking of thread interleavings: shuttle's DFS scheduler enumerates every schedule of 2- and 3-thread bodies over a copy of the library whose std::sync/thread/thread_local tokens are rewritten to shuttle's",
+         "Every triple of the universe is maximised and the laws (given subtags kept, all three present, bool result, idempotence, false => unchanged) are evaluated; variants and extensions are checked bit-identical on a sub-universe x 3 variant lists x 4 extension sets through LanguageIdentifier::maximize and Locale.id.maximize. Concurrent callers: for all ordered pairs (and triples of the first five) of 8-16 operations of the family, every schedule of {warm-up; T1: a || T2: b [|| T3: c]; join; a; b} is enumerated by shuttle's DFS scheduler on a rewritten copy of the two -impl crates (every atomic / lock / thread-local access is a scheduling point); each result must equal the sequential one, which in turn must equal the real library's.",
          "No reference data needed (algebraic). Variant/extension independence is explored on the sub-universe only.",
          "DESIGN.md §4 C07"),
- "C08": ("E4 complete product enumeration (CLDR universe)",
-         "complete enumeration of the L x S x R universe, algebraic laws plus dictionary reference for the chosen form, run on the real minimize",
-         "Every triple of the universe is minimised; meaning preservation, subtag containment, no-lengthening, first-of-three choice, min(max(x)) = min(x) at return level, idempotence and false => unchanged are evaluated, and the chosen form is compared with the reference three-trial rule over the dictionary; variants/extensions on a sub-universe.",
+ "C08": ("E4 complete product enumeration (CLDR universe) + E6 exhaustive schedule exploration (shuttle DFS) of concurrent callers",
+         "complete enumeration of the L x S x R universe, algebraic laws plus dictionary reference for the chosen form, run on the real minimize; plus stateless model checking of thread interleavings: shuttle's DFS scheduler enumerates every schedule of 2- and 3-thread bodies over a copy of the library whose std::sync/thread/thread_local tokens are rewritten to shuttle's",
+         "Every triple of the universe is minimised; meaning preservation, subtag containment, no-lengthening, first-of-three choice, min(max(x)) = min(x) at return level, idempotence and false => unchanged are evaluated, and the chosen form is compared with the reference three-trial rule over the dictionary; variants/extensions on a sub-universe. Concurrent callers: for all ordered pairs (and triples of the first five) of 8-16 operations of the family, every schedule of {warm-up; T1: a || T2: b [|| T3: c]; join; a; b} is enumerated by shuttle's DFS scheduler on a rewritten copy of the two -impl crates (every atomic / lock / thread-local access is a scheduling point); each result must equal the sequential one, which in turn must equal the real library's.",
          "C08's law min(max(x)) = min(x) is read at the level of the function result (DESIGN §6.1).",
          "DESIGN.md §4 C08"),
  "C09": ("E1 token tree x transformation group + E2 skeleton group permutations",
@@ -40,13 +40,13 @@ BUILT = {
          "No reference model: the pairs are the oracle. Bounded by token depth and group size.",
          "DESIGN.md §4 C09"),
  "C11": ("E4 complete product enumeration (identifier pairs)",
-         "complete enumeration of all ordered pairs of a 384-identifier domain x 4 flag pairs x extension settings, real matches() against the field-wise formula",
+         "complete enumeration of all ordered pairs of per-field sweep families (every CLDR language / script / region plus special codes, all 128 sorted sub-lists of 7 variants) and of a 384-identifier product domain x 4 flag pairs x extension settings, real matches() against the field-wise formula",
          "All 384^2 ordered pairs x 4 flag pairs for LanguageIdentifier::matches and Language::matches, and the same pairs wrapped in Locales with 5x5 extension settings for Locale::matches and AsRef matching, compared with the field-wise formula and the derived laws.",
-         "Domain: 4 languages incl. und x 4 scripts incl. none x 4 regions incl. none x 6 variant lists.",
+         "Product domain: 4 languages incl. und x 4 scripts incl. none x 4 regions incl. none x 6 variant lists; per-field families: one field swept, the other three in two fixed contexts (matches is a conjunction of field-wise tests).",
          "DESIGN.md §4 C11"),
- "C14": ("E4 complete product enumeration (CLDR layout locales, universe) in two builds",
-         "complete enumeration of all 710 CLDR layout locales and of the L x S x R universe in builds with and without likelysubtags, compared with a model derived from the layout JSON",
-         "All 710 locales under data/cldr-misc-full/main and all universe triples are run through character_direction in the likelysubtags build and in the feature-less build (a second binary), against directions derived from the layout JSON files.",
+ "C14": ("E4 complete product enumeration (CLDR layout locales, universe) in two builds + E6 exhaustive schedule exploration (shuttle DFS) of concurrent callers",
+         "complete enumeration of all 710 CLDR layout locales and of the L x S x R universe in builds with and without likelysubtags, compared with a model derived from the layout JSON; plus stateless model checking of thread interleavings: shuttle's DFS scheduler enumerates every schedule of 2- and 3-thread bodies over a copy of the library whose std::sync/thread/thread_local tokens are rewritten to shuttle's",
+         "All 710 locales under data/cldr-misc-full/main and all universe triples are run through character_direction in the likelysubtags build and in the feature-less build (a second binary), against directions derived from the layout JSON files. Concurrent callers: for all ordered pairs (and triples of the first five) of 8-16 operations of the family, every schedule of {warm-up; T1: a || T2: b [|| T3: c]; join; a; b} is enumerated by shuttle's DFS scheduler on a rewritten copy of the two -impl crates (every atomic / lock / thread-local access is a scheduling point); each result must equal the sequential one, which in turn must equal the real library's.",
          "Trusted: the layout.json files; the base build is a separate binary of the same checker source.",
          "DESIGN.md §4 C14"),
  "C15": ("E4 byte-string products + substitution neighbourhoods",
@@ -59,9 +59,9 @@ BUILT = {
          "Every entry of the six likely-subtags tables and four direction arrays is read from the compiled statics via the cfg(unic_locale_verif) re-export and compared with the JSON-derived dictionary: exactly one entry per key, correct value, strict order in the binary-search key order, well-formed canonical-case subtags, CLDR version; both generator binaries are re-run and their tokenised output compared with the checked-in files.",
          "Trusted: the JSON data files. Needs the add-only hook commit in /repo.",
          "DESIGN.md §4 C18"),
- "C01": ("E1/E2 input spaces x 27 entry points + E4 argument/triple products + E3 histories, in an isolated child with watchdog",
-         "bounded-exhaustive enumeration of inputs, arguments, triples and mutation histories on the real code; the oracle is 'the call returns' (catch_unwind, per-case watchdog, child exit status)",
-         "Every input of the E1 token trees and E2 skeleton/edit neighbourhoods goes through every text-accepting entry point of both crates; every byte string of length <= 2 and boundary-class strings to length 9 are the argument of 15 getter/setter functions on three receivers; every (language, script, region) of the CLDR universe goes through maximize, minimize and character_direction; a fixed list of large inputs runs under the 5 s watchdog; every call of the E3 harnesses is guarded. A panic, hang, abort or stack overflow is a violation attributed to the case.",
+ "C01": ("E1/E2 input spaces x 27 entry points + E4 argument/triple products + E3 histories, in an isolated child with watchdog + E6 exhaustive schedule exploration (shuttle DFS) of concurrent callers",
+         "bounded-exhaustive enumeration of inputs, arguments, triples and mutation histories on the real code; the oracle is 'the call returns' (catch_unwind, per-case watchdog, child exit status); plus stateless model checking of thread interleavings: shuttle's DFS scheduler enumerates every schedule of 2- and 3-thread bodies over a copy of the library whose std::sync/thread/thread_local tokens are rewritten to shuttle's (termination only)",
+         "Every input of the E1 token trees and E2 skeleton/edit neighbourhoods goes through every text-accepting entry point of both crates; every byte string of length <= 2 and boundary-class strings to length 9 are the argument of 15 getter/setter functions on three receivers; every (language, script, region) of the CLDR universe goes through maximize, minimize and character_direction; a fixed list of large inputs runs under the 5 s watchdog; every call of the E3 harnesses is guarded. A panic, hang, abort or stack overflow is a violation attributed to the case. Concurrent callers: the same schedule enumeration over the parse / maximize / minimize / direction families in 'total' mode (a panic, deadlock or livelock under some schedule is a violation; values are not compared).",
          "Hang = one case current for more than 5 s. Inputs longer than the depth bound and more than k edits from every skeleton are outside.",
          "DESIGN.md §4 C01"),
  "C04": ("E1/E2 parse route + E4 from_parts product + E3 mutation histories",
@@ -146,6 +146,7 @@ def main():
             {"name": "E3", "path": "/verif/mc/mc/src/props/history.rs", "kind_free_text": "explicit-state exploration of mutation histories: level-synchronised BFS to exhaustion over (real value, model value) pairs, exact de-duplication, route-independence table; unique-state count cross-checked with stateright 0.31 spawn_bfs"},
             {"name": "E4", "path": "/verif/mc/mc/src/props/", "kind_free_text": "complete enumeration of finite product domains (CLDR universe, table entries, byte-string products, identifier pairs, from_parts product)"},
             {"name": "E5", "path": "/verif/mc/mc/src/props/macros.rs", "kind_free_text": "enumeration of programs and configurations: generated crates of macro invocations (C16), transcript program built per feature set (C20)"},
+            {"name": "E6", "path": "/verif/mc/mc/src/props/conc.rs", "kind_free_text": "stateless model checking of thread interleavings: shuttle 0.9.3 DfsScheduler (exhaustive) over small multi-thread bodies calling the library's query functions, on a copy of the -impl crates with std::sync / std::thread / thread_local! rewritten to shuttle's; sequential results bound to the real library; harness source /verif/mc/conc/main.rs"},
             {"name": "refmodel", "path": "/verif/mc/refmodel/src/lib.rs", "kind_free_text": "reference models (UTS #35 recogniser with zones, value model, likely-subtags dictionary, direction data)"},
         ],
         "checks": checks,
@@ -153,7 +154,7 @@ def main():
         "notes": "All checks: ./check <ID> <quick|thorough>; exit 0 held / 1 violation / 2 build failure / 3 engine failure. See DESIGN.md.",
     }
     for e in m["engines"]:
-        e["serves_properties"] = [c["property_id"] for c in checks]
+        e["serves_properties"] = ["C01", "C03", "C06", "C07", "C08", "C14"] if e["name"] == "E6" else [c["property_id"] for c in checks]
     json.dump(m, open('/verif/MANIFEST.json', 'w'), indent=1)
     try:
         import jsonschema
